@@ -15,7 +15,7 @@ LEVEL = "exploration"
 RULE = (
     "Part hdc: Hypothesis draws 2-D and 3-D hierarchical models over the non-negative families, alpha log-uniform in [1e-6, 0.3], limits "
     "(explicit per-dimension tuples built from marginal quantiles 1-alpha*t with t in [1e-3, 50] so that 1-alpha is both reachable and not "
-    "reachable; or default) and deltas (default / scalar / per-dimension / anisotropic up to 10), 10-400 cells per axis (3-D: 10-80). The "
+    "reachable; or default) and deltas (default / scalar / per-dimension / anisotropic up to 10), 10-320 cells per axis (default deltas: 401; 3-D: 10-80). The "
     "enclosed region is reconstructed from public outputs only (fm, cell_center_coordinates) with cell probabilities computed by the harness "
     "from the spec as products of conditional cdf differences. Oracle: content <= 1-alpha and short by less than the densest excluded cell, "
     "fm = density of the least dense enclosed cell, enclosed >= excluded, RuntimeWarning iff the grid holds less than 1-alpha, and "
@@ -175,6 +175,6 @@ def strat_cumsum(tier):
 
 
 PARTS = [
-    Part("hdc", check_hdc, lambda tier: H.hdc_case(tier), quick=500, thorough=9000, shrink_quick=False, min_per_shard=4, min_nontrivial_frac=0.2),
+    Part("hdc", check_hdc, lambda tier: H.hdc_case(tier), max_workers=12, quick=500, thorough=9000, shrink_quick=False, min_per_shard=4, min_nontrivial_frac=0.2),
     Part("cumsum", check_cumsum, strat_cumsum, quick=3000, thorough=60000, min_nontrivial_frac=0.15),
 ]
